@@ -1236,6 +1236,36 @@ def call_ext(it, dotted, args, kwargs):
         from .values import PyFunc
         for meth in ('findall', 'split', 'sub'):
             o.attrs[meth] = PyFunc(lambda it2, a, k, meth=meth: call_ext(it2, 're.' + meth, [pat_args[0]] + list(a), dict(k, **({'flags': pat_args[1]} if len(pat_args) > 1 and meth != 'sub' else {}))), meth)
+        import re as _re
+        try:
+            compiled = _re.compile(*pat_args)
+        except _re.error:
+            raise PyRaise('re.error')
+
+        def wrap_match(m):
+            if m is None:
+                return None
+            mo = Opaque('re.Match')
+            mo.attrs['group'] = PyFunc(lambda it2, a, k: m.group(*a), 'group')
+            mo.attrs['groups'] = PyFunc(lambda it2, a, k: m.groups(*a), 'groups')
+            mo.attrs['groupdict'] = PyFunc(lambda it2, a, k: m.groupdict(), 'groupdict')
+            mo.attrs['start'] = PyFunc(lambda it2, a, k: m.start(*a), 'start')
+            mo.attrs['end'] = PyFunc(lambda it2, a, k: m.end(*a), 'end')
+            mo.attrs['span'] = PyFunc(lambda it2, a, k: m.span(*a), 'span')
+            return mo
+
+        def searcher(meth):
+            def run(it2, a, k):
+                # concrete pattern on a concrete string (and concrete positions): the standard library's own answer
+                if not (a and isinstance(a[0], str)) or not all(as_int(x) is not None for x in a[1:]) or k:
+                    raise Undecidable('re.%s on a symbolic string' % meth)
+                r_ = getattr(compiled, meth)(a[0], *[as_int(x) for x in a[1:]])
+                if meth == 'finditer':
+                    return [wrap_match(m) for m in r_]
+                return wrap_match(r_)
+            return run
+        for meth in ('finditer', 'match', 'search', 'fullmatch'):
+            o.attrs[meth] = PyFunc(searcher(meth), meth)
         return o
     if mod == 're' and short in ('findall', 'split', 'sub', 'escape'):
         # concrete pattern on a concrete string: the standard library's own answer (the regex engine is trusted, see E6)
